@@ -381,7 +381,7 @@ class MindsDBLexer(Lexer):
 
         msgs = [f'Illegal character {t.value[0]!r}:']
         # show error code
-        for line in lines[error_line - 1: error_line + 1]:
+        for line in lines[max(error_line - 1, 0): error_line + 1]:
             msgs.append('>' + line)
 
         msgs.append('-' * (error_index + 1) + '^')
